@@ -170,6 +170,7 @@ package funnel
 
 //verif:func (*DLQ).Nack(d, ctx, batch, taskID) (n, err)
 //verif:requires BLens(batch) && d.window != nil && winInv(d.window)
+//verif:let nacked = result_of("(*dlqWindow).Nack", 0)
 //verif:ensures[inv] winInv(d.window)
 //verif:ensures[range] 0 <= n && n <= len(batch.records)
 //verif:ensures[all-or-error] err == nil && (len(batch.records) == 0 || nacked == len(batch.records) || d.windowNackThreshold > 0 || batch.recordStatuses[nacked].Error != nil) ==> n == len(batch.records)
